@@ -247,7 +247,8 @@ def gen_reward(rng, tier):
     nobj = rng.choice([1, 1, 2, 3, 3, 4])
     steps = []
     wild = rng.chance(1, 8)
-    for _ in range(rng.range(1, 6)):
+    slow = rng.chance(1, 12)
+    for _ in range(rng.range(1, 6) if not slow else rng.range(4, 9)):
         if wild:
             def w():
                 k = rng.below(6)
@@ -268,6 +269,8 @@ def gen_reward(rng, tier):
             st = {'new': sb(bits(float(x)) for x in new), 'init': sb(bits(float(x)) for x in init),
                   'best': None if best is None else sb(bits(float(x)) for x in best)}
         st['ratio'] = str(bits(rng.choice(RATIOS)))
+        if slow and rng.chance(1, 2):
+            st['sleep_ms'] = rng.range(1, 4)      # exercises the median factor of the multiplier (timing dependent: compared as a set)
         steps.append(st)
     steps[-1]['many'] = True
     return {'op': 'reward', 'nops': nops, 'steps': steps, 'wild': wild}
@@ -299,6 +302,44 @@ def reward_expect(st):
     if is_new_best:
         ir = 2.0 if ratio < 0.05 else (0.75 if ratio > 0.15 else 1.0)
     return len(new), pairs, ir
+
+
+C005 = Fr(0.05)
+
+
+def reward_step_exact(st):
+    """are all f64 intermediates of the reward of this step exactly representable (then impl == model as rationals);
+       otherwise a few roundings separate them and the comparison is relative (1e-12)"""
+    new = [fr(x) for x in st['new']]
+    init = [fr(x) for x in st['init']]
+    if st['best'] is None:
+        return True
+    best = [fr(x) for x in st['best']]
+    inter = []
+
+    def rel(fa, fb):
+        o = lex(fa, fb)
+        if o == 0:
+            return Fr(0)
+        for idx, (a, b) in enumerate(zip(fa, fb)):
+            if a != b:
+                v = abs(a - b) / max(abs(a), abs(b))
+                d = v * (1 if o < 0 else -1) * (len(fa) - idx)
+                inter.extend([a - b, v, d])
+                return d
+        return Fr(0)
+    di, db = rel(new, init), rel(new, best)
+    _, _, ir = reward_expect(st)
+    if di > 0 and db > 0:
+        r = (di + 1) + (db + 1) * 2
+        inter.extend([di + 1, db + 1, (db + 1) * 2, r])
+    elif di > 0:
+        r = (di + 1) * C005
+        inter.extend([di + 1, r])
+    else:
+        r = Fr(0)
+    inter.append(r * Fr(ir))
+    return all(rep(x) for x in inter)
 
 
 # ------------------------------------------------------------------ minvar cases
@@ -561,14 +602,21 @@ def compare(c, impl, model):
             return 'DynamicSelective panicked at step %s: %s' % (impl['panic_at']['step'], impl['panic_at']['msg'])
         if len(impl['search']) != len(c['steps']):
             return 'telemetry has %d samples for %d steps' % (len(impl['search']), len(c['steps']))
-        if any(s['duration'] != 0 for s in impl['search']):
-            return None           # timing noise changes the median factor: not comparable
+        noisy = any(s['duration'] != 0 for s in impl['search'])
         for k, (s, m) in enumerate(zip(impl['search'], model)):
             want = qpair(m)
             if not is_finite_bits(s['reward']):
                 return 'step %d: reward not finite, model %s' % (k, want)
             got = fr(s['reward'])
-            if rep(want):
+            if noisy:
+                # the median factor depends on wall-clock durations: the model value is for factor 1, the code may have used any of the four
+                if want == 0:
+                    if got != 0:
+                        return 'step %d: reward impl %s model 0' % (k, got)
+                elif not any(abs(got / want - f) <= Fr(1, 10 ** 12) for f in (Fr(3, 4), Fr(1), Fr(5, 4), Fr(3, 2))):
+                    return 'step %d: reward impl %s is not the model reward %s times a median factor 0.75/1/1.25/1.5' % (k, float(got), float(want))
+                continue
+            if reward_step_exact(c['steps'][k]):
                 if got != want:
                     return 'step %d: reward impl %s model %s' % (k, got, want)
             elif abs(got - want) > abs(want) / 10 ** 12:
